@@ -113,6 +113,14 @@ func runNorm(m *model.Model, s *ob.Set) {
 			for _, st := range stores {
 				isComputed[st] = true
 			}
+			isStoredMant := func(v ssa.Value) bool {
+				for _, st := range stores {
+					if stripConvAny(st.Val) == stripConvAny(v) {
+						return true
+					}
+				}
+				return false
+			}
 			n := len(fn.Blocks)
 			in := make([]int, n)
 			in[0] = clean
@@ -137,7 +145,9 @@ func runNorm(m *model.Model, s *ob.Set) {
 							continue
 						}
 						if cal == dnorm && st == pend0 {
-							if m.RootsOf(c.Args[0])[fmt.Sprintf("P%d.mant", k)] {
+							// dnorm(z.mant), or dnorm(v) with v the very slice that was stored into
+							// z.mant (m := …norm(); z.mant = m; … dnorm(m): one slice, shifted in place)
+							if m.RootsOf(c.Args[0])[fmt.Sprintf("P%d.mant", k)] || isStoredMant(c.Args[0]) {
 								st = pend1
 							}
 							continue
